@@ -278,6 +278,53 @@ def run_impl(bdir, d, n, body):
     return out
 
 
+def build_shim():
+    """LD_PRELOAD library that makes every pwrite() short (harness/shortpwrite.c)."""
+    src = os.path.join(vcommon.HARNESS, "shortpwrite.c")
+    out = os.path.join(vcommon.CACHE, "shortpwrite.so")
+    if not os.path.exists(out) or os.path.getmtime(out) < os.path.getmtime(src):
+        os.makedirs(vcommon.CACHE, exist_ok=True)
+        r = vcommon.run(["gcc", "-shared", "-fPIC", "-O1", "-o", out + ".tmp", src, "-ldl"])
+        if r.returncode != 0:
+            return None
+        os.replace(out + ".tmp", out)
+    return out
+
+
+def run_short_pwrite(bdir, d, n, body, shim, limit):
+    """The first ovnisort run again, every pwrite() cut to `limit` bytes."""
+    s = Stream(tid=1, pid=1, cpus=[(0, 0)])
+    s.raw_obs = HDR + body
+    write_trace(d, [s])
+    obs = os.path.join(d, s.relpath, "stream.obs")
+    tool = os.path.join(bdir, "src/emu/ovnisort")
+    rc, _, err = run_tool(tool, ([] if n is None else ["-n", str(n)]) + [d], timeout=30,
+                          env_extra={"LD_PRELOAD": shim, "SHORT_PWRITE": str(limit)})
+    with open(obs, "rb") as f:
+        return rc, f.read(), err
+
+
+def run_multi(bdir, d, n, bodies):
+    """Several streams in one trace: a first stream with low clocks, then the given bodies as further
+    threads.  ovnisort treats every stream on its own."""
+    streams = []
+    first = Stream(tid=1, pid=1, cpus=[(0, 0)])
+    first.raw_obs = HDR + OHX(0) + ev_bytes(1, "OB.") + ev_bytes(2, "OHe")
+    streams.append(first)
+    for k, body in enumerate(bodies):
+        s = Stream(tid=2 + k, pid=1)
+        s.raw_obs = HDR + body
+        streams.append(s)
+    write_trace(d, streams)
+    tool = os.path.join(bdir, "src/emu/ovnisort")
+    rc, _, err = run_tool(tool, ([] if n is None else ["-n", str(n)]) + [d], timeout=60)
+    outs = []
+    for s in streams[1:]:
+        with open(os.path.join(d, s.relpath, "stream.obs"), "rb") as f:
+            outs.append(f.read())
+    return rc, outs, err
+
+
 def hx(b):
     return b.hex() if b else "-"
 
@@ -467,6 +514,45 @@ def check(res, tier, replay=None):
                 res.dist("class:outside-precondition")
                 if im["rc1"] == 0 and im["rcc"] == 0 and not is_sorted(oevs):
                     viol("oracle:check-mode", "-c passes on an unsorted stream")
+        # ---- extra passes on the cases the first run sorted successfully with at least one plan executed
+        if not replay:
+            sortable = [i for i in range(len(cases)) if impl[i]["rc1"] == 0 and impl[i]["obs1"][8:] != cases[i][1]]
+            pick = sortable[: (60 if tier == "quick" else 600)]
+            shim = build_shim()
+            with Scratch("c16x") as d:
+                # (a) the OS may cut every pwrite() short: the write loop must still place every byte
+                if shim:
+                    for i in pick:
+                        for limit in (40, 7):
+                            rc, data, err = run_short_pwrite(prep.bdir, os.path.join(d, f"sp{i}-{limit}"), cases[i][0], cases[i][1], shim, limit)
+                            res.case(f"short-pwrite {limit} n={cases[i][0]} body={hx(cases[i][1])}")
+                            res.dist("pass:short-pwrite")
+                            if rc != 0 or data != impl[i]["obs1"]:
+                                found = res.violation("oracle:short-pwrite", f"with every pwrite() cut to {limit} bytes ovnisort "
+                                                      f"exits {rc} / leaves a different stream than with full writes",
+                                                      f"case n={'default' if cases[i][0] is None else cases[i][0]} body={hx(cases[i][1])}\n"
+                                                      f"# SHORT_PWRITE={limit} LD_PRELOAD=harness/shortpwrite.c\n# stderr: {err[-500:]!r}\n"
+                                                      f"# stream body with short writes: {hx(data[8:])}\n# with full writes: {hx(impl[i]['obs1'][8:])}") or found
+                else:
+                    prep.problems.append("shortpwrite shim does not build")
+                # (b) several streams in one trace: every stream is sorted on its own, the result of each equals
+                #     its single-stream result whatever the neighbours hold (the look-back ring is per stream)
+                byn = {}
+                for i in pick:
+                    byn.setdefault(cases[i][0], []).append(i)
+                for n, idx in byn.items():
+                    for a in range(0, len(idx) - 1, 2):
+                        grp = idx[a:a + 3]
+                        rc, outs, err = run_multi(prep.bdir, os.path.join(d, f"mu{grp[0]}"), n, [cases[i][1] for i in grp])
+                        res.case("multi " + " ".join(hx(cases[i][1]) for i in grp))
+                        res.dist("pass:multi-stream")
+                        bad = [k for k, i in enumerate(grp) if outs[k] != impl[i]["obs1"]]
+                        if rc != 0 or bad:
+                            found = res.violation("oracle:multi-stream", f"{len(grp) + 1} streams in one trace: ovnisort exits {rc}, "
+                                                  f"streams {bad} differ from their single-stream result",
+                                                  "\n".join(f"case n={'default' if n is None else n} body={hx(cases[i][1])}" for i in grp)
+                                                  + f"\n# multi-stream trace: thread 1 = OHx@0 OB.@1 OHe@2, then these bodies as threads 2..\n"
+                                                  f"# stderr: {err[-600:]!r}") or found
     for pr in prep.problems:
         res.failed_obligations = getattr(res, "failed_obligations", []) + [pr]
         proved = False
